@@ -11,10 +11,11 @@
  * nni_stat_snapshot (behind nng_stats_get): C20 + snapshot consistency + C03
  * ------------------------------------------------------------------- */
 #define SNAPSHOT_CONTRACT                                                                                     \
-__CPROVER_requires(__CPROVER_is_fresh(statp, sizeof(*statp)))                                                 \
+/* the result cell is the harness object g_out (the harness inspects the tree through it) */                   \
+__CPROVER_requires(statp == &g_out)                                                 \
 __CPROVER_requires(ST_NO_LOCK_HELD && g_nc <= 2 && g_ng <= 1 && (g_nc >= 1 || g_ng == 0))                      \
 __CPROVER_requires(g_clk_base == g_now && g_now < ((uint64_t) 1 << 40))                                      \
-__CPROVER_assigns(*statp, g_alloc_ok, g_free_calls, g_now, g_lock_ops, __CPROVER_object_whole(g_held),        \
+__CPROVER_assigns(*statp, g_alloc_ok, g_free_calls, g_alloc_calls, g_str_calls, g_now, g_lock_ops, __CPROVER_object_whole(g_held),        \
     __CPROVER_object_whole(g_clk_m0), __CPROVER_object_whole(g_clk_m1), __CPROVER_object_whole(g_clk_stats))  \
 __CPROVER_ensures(RV == 0 || RV == NNG_ENOMEM)                                                                \
 /* C20: no lock is left held, whatever the outcome */                                                         \
